@@ -17,7 +17,7 @@ git apply "$patch" || { echo "PATCH DOES NOT APPLY"; git -C /repo worktree remov
 suite=$(/venv/bin/python -B -m pytest -q -p no:cacheprovider --timeout=900 2>&1 | tail -1)
 echo "seed=$id demo_clean_exit=$clean demo_patched_exit=$patched suite='$suite'"
 for p in "$@"; do
-  out=$(cd /verif && SNT_SRC="$wt/src" ./check "$p" --tier quick --no-selftest --no-evidence 2>&1)
+  out=$(cd /verif && SNT_SRC="$wt/src" ./check "$p" --tier quick --no-selftest --no-evidence ${WORKERS:+--workers $WORKERS} ${CAP:+--cap $CAP} 2>&1)
   rc=$?
   echo "  check $p exit=$rc $(echo "$out" | grep -c '^VIOLATION') violation line(s)"
   if [ -n "$SAVE_CORPUS" ]; then
